@@ -6,6 +6,7 @@ head with the invariant given in the sidecar contract; calls to contracted funct
 (see discharge.py).  The engine proves, it never refutes: an obligation that is not discharged is only "not proved".
 """
 import ast, itertools
+_EVENT = itertools.count(1)
 from z3 import (And, Or, Not, Implies, If, BoolVal, IntVal, RealVal, Const, ForAll, Exists, Select, Store, Int,
                 IntSort, is_true, is_false, simplify, K, ToReal, is_int, is_real, Function, BoolSort, MultiPattern)
 from .types import *
@@ -31,9 +32,16 @@ class PV:
     def __init__(s, t, term, none=False): s.t, s.term, s.none = t, term, none
 
 
+_event = itertools.count(1) if 'itertools' in globals() else None
+
+
 class PRef:
-    """reference to (part of) a mutable object: root id in the store + access path (field names, ('key', term))"""
-    def __init__(s, t, root, path=(), none=False): s.t, s.root, s.path, s.none = t, root, tuple(path), none
+    """reference to (part of) a mutable object: root id in the store + access path (field names, ('key', term)).
+    A reference with a non-empty path denotes the object CURRENTLY stored in that slot; `born` orders it against later re-bindings of the slot
+    (after `x = d[k]; d[k] = other` the name x still denotes the old object: such a stale view is not modelled and makes the function UNSUPPORTED)"""
+    def __init__(s, t, root, path=(), none=False, born=None):
+        s.t, s.root, s.path, s.none = t, root, tuple(path), none
+        s.born = born if born is not None else next(_EVENT)
 
 
 class PTup:
@@ -51,10 +59,10 @@ class PMaybe:
 
 class State:
     def __init__(s):
-        s.env = {}; s.store = {}; s.types = {}; s.frozen = {}; s.pc = []; s.yields = None; s.yield_count = 0
+        s.env = {}; s.store = {}; s.types = {}; s.frozen = {}; s.pc = []; s.yields = None; s.yield_count = 0; s.rebinds = []
     def clone(s):
         n = State(); n.env = dict(s.env); n.store = dict(s.store); n.types = s.types; n.frozen = dict(s.frozen)
-        n.pc = list(s.pc); n.yields = s.yields; n.yield_count = s.yield_count
+        n.pc = list(s.pc); n.yields = s.yields; n.yield_count = s.yield_count; n.rebinds = list(s.rebinds)
         return n
 
 
@@ -124,6 +132,23 @@ class Engine:
         if frozen: st.frozen[oid] = 'escaped'
         return PRef(t, oid)
 
+    def note_rebind(self, st, root, path, value=None):
+        """the slot (root, path) is re-bound to another object (d[k] = v, d.update({k: v}), d.pop(k), obj.attr = v)"""
+        if isinstance(value, PRef) and value.root == root and len(value.path) == len(path) and all(self.same_step(a, b) is True for a, b in zip(value.path, path)):
+            return                                   # storing the slot's own object back (order = d[k]; ...; d.update({k: order})): no re-binding
+        st.rebinds.append((next(_EVENT), root, tuple(path)))
+
+    @staticmethod
+    def same_step(a, b):
+        if isinstance(a, str) or isinstance(b, str): return a == b
+        return True if a[1].eq(b[1]) else None       # different key terms may still be equal values
+
+    def check_fresh(self, st, ref):
+        if not ref.path: return
+        for (eid, root, path) in st.rebinds:
+            if eid > ref.born and root == ref.root and len(path) <= len(ref.path) and all(self.same_step(a, b) is not False for a, b in zip(path, ref.path)):
+                raise Unsupported('aliasing: a reference obtained from a container slot is used after that slot was re-bound (stale view)')
+
     def read_path(self, st, root, path):
         term, t = st.store[root], st.types[root]
         for step in path:
@@ -148,7 +173,8 @@ class Engine:
 
     def term(self, st, v):
         if isinstance(v, PV): return v.term
-        if isinstance(v, PRef): return self.read_path(st, v.root, v.path)[0]
+        if isinstance(v, PRef):
+            self.check_fresh(st, v); return self.read_path(st, v.root, v.path)[0]
         if isinstance(v, PTup): return TTuple([self.type_of(x) for x in v.items]).mk(*[self.term(st, x) for x in v.items])
         raise Unsupported('no term for %r' % (v,))
 
@@ -174,7 +200,7 @@ class Engine:
     def as_list(self, v):
         """a list-subclass object used as a list"""
         if isinstance(v, PRef) and isinstance(v.t, TObj) and v.t.as_list:
-            return PRef(v.t.ftype(v.t.as_list), v.root, v.path + (v.t.as_list,), v.none)
+            return PRef(v.t.ftype(v.t.as_list), v.root, v.path + (v.t.as_list,), v.none, born=v.born)
         return v
 
     # ---------------------------------------------------------------------------------------- obligations
@@ -247,6 +273,7 @@ class Engine:
         if d1: m.pc.append(Implies(cond, And(*d1)))
         if d2: m.pc.append(Implies(Not(cond), And(*d2)))
         m.frozen = {**s1.frozen, **s2.frozen}
+        m.rebinds = list(s1.rebinds) + [e for e in s2.rebinds if e not in s1.rebinds]
         for oid in set(s1.store) | set(s2.store):
             a, b = s1.store.get(oid), s2.store.get(oid)
             if a is None or b is None:
@@ -275,7 +302,7 @@ class Engine:
             v = b if isinstance(a, PNone) else a; nc = cond if isinstance(a, PNone) else Not(cond)
             none = nc if v.none is False else Or(nc, v.none)
             if isinstance(v, PV): return PV(v.t, v.term, none)
-            if isinstance(v, PRef): return PRef(v.t, v.root, v.path, none)
+            if isinstance(v, PRef): return PRef(v.t, v.root, v.path, none, born=v.born)
             raise Unsupported('merge None with tuple (%s)' % name)
         if isinstance(a, PTup) and isinstance(b, PTup) and len(a.items) == len(b.items):
             return PTup([self.merge_val(m, cond, x, y, name) for x, y in zip(a.items, b.items)])
@@ -383,7 +410,9 @@ class Engine:
             obj = self.expr(tgt.value, st)
             if isinstance(obj, PRef) and isinstance(obj.t, TObj) and obj.t.has_field(tgt.attr):
                 ft = obj.t.ftype(tgt.attr); v = self.expr(value, st, hint=ft)
-                self.write_path(st, obj.root, obj.path + (tgt.attr,), self.coerce(st, v, ft)); self.escape_into(st, v, obj, tgt.attr); return
+                newval = self.coerce(st, v, ft)
+                if isinstance(ft, (TList, TDict, TObj)): self.note_rebind(st, obj.root, obj.path + (tgt.attr,), v)
+                self.write_path(st, obj.root, obj.path + (tgt.attr,), newval); self.escape_into(st, v, obj, tgt.attr); return
             raise Unsupported('attribute assignment ' + ast.unparse(tgt))
         if isinstance(tgt, ast.Subscript):
             base = self.as_list(self.expr(tgt.value, st)) if not isinstance(self.expr_type_peek(tgt.value, st), TDict) else self.expr(tgt.value, st)
@@ -393,7 +422,7 @@ class Engine:
                 self.write_path(st, base.root, base.path, th.Upd(cur, idx, self.coerce(st, v, base.t.elem))); self.escape(st, v); return
             if isinstance(base, PRef) and isinstance(base.t, TDict):
                 k = self.expr(tgt.slice, st); v = self.expr(value, st, hint=base.t.v)
-                self.dict_set(st, base, self.coerce(st, k, base.t.k), self.coerce(st, v, base.t.v)); self.escape(st, v); return
+                self.dict_set(st, base, self.coerce(st, k, base.t.k), self.coerce(st, v, base.t.v), value=v); self.escape(st, v); return
         raise Unsupported('assignment target ' + ast.unparse(tgt))
 
     def unpack(self, tgt, v, st):
@@ -446,8 +475,9 @@ class Engine:
         if isinstance(vt, TInt) and isinstance(t, TVal): return IntAsVal(term)
         raise Unsupported('type mismatch: %r where %r expected' % (vt, t))
 
-    def dict_set(self, st, d, k, v):
+    def dict_set(self, st, d, k, v, value=None):
         if getattr(d, 'shallow_copy', False): raise Unsupported('aliasing: key set of a shallow dict copy is changed')
+        if isinstance(d.t.v, (TList, TDict, TObj)): self.note_rebind(st, d.root, d.path + (('key', k),), value)
         cur = self.term(st, d); t = d.t; th = t.kth()
         nk = FreshConst(th.S, 'ks'); st.pc.append(nk == If(th.Has(t.keys(cur), k), t.keys(cur), th.App(t.keys(cur), th.One(k))))
         self.write_path(st, d.root, d.path, t.mk(nk, Store(t.map(cur), k, v)))
@@ -601,7 +631,10 @@ class Engine:
             # iterated object possibly mutated in the body: only allowed if the contract says it is not (explicit modifies)
             raise Unsupported('aliasing: loop %d iterates over an object its body may mutate' % k_id)
         ctx = dict(self.old); ctx['$entry'] = entry
-        def inv(state, k): return spec.inv(ctx, self.view(state), k)
+        def inv(state, k):
+            try: return spec.inv(ctx, self.view(state), k)
+            except KeyError as e:
+                raise Unsupported('the invariant of loop %d names the local %s, which the function does not bind here (renamed?)' % (k_id, e))
         self.oblige(st, name, 'init', And(inv(st, lo)))
         # havoc
         h = st.clone(); assigned, aug_only = self.assigned_names(s.body)
